@@ -19,6 +19,8 @@ spec -> code : TLC emits the required value of every function for every basis fi
                balls where flux_across_volume_boundary is called in the cylindrical / spherical system (fields given
                natively as r^a z^c e_i, which the model knows as Cartesian polynomial fields) and compared with the
                flux through the faces.
+               Cases on shells / balls / half balls are replayed along Integrals!SystemHistory (coordinate-system objects
+               A, B, a newly created one, A again, in one process); the others in one object each, rotating.
 code -> spec : all results are written to a JSON trace; spec/IntegralsTrace.tla lets TLC recompute the required value
                from the coefficient maps and reject records that are not that number.
 """
@@ -56,12 +58,31 @@ CART = []
 CURV = {}
 
 
-def _init():
+CUR = {}
+INST = {}
+
+
+def _types():
     from symplyphysics.core.coordinate_systems.coordinate_systems import CoordinateSystem
-    if not CART:
-        CART.append(CoordinateSystem())
-        CURV["cyl"] = CoordinateSystem(CoordinateSystem.System.CYLINDRICAL)
-        CURV["sph"] = CoordinateSystem(CoordinateSystem.System.SPHERICAL)
+    t = CoordinateSystem.System
+    return CoordinateSystem, {"cart": t.CARTESIAN, "cyl": t.CYLINDRICAL, "sph": t.SPHERICAL}
+
+
+def _init():
+    """Two CoordinateSystem objects of every kind are created up front ("A", "B"); "new" creates one afresh."""
+    if not INST:
+        cls, types = _types()
+        for name, t in types.items():
+            INST[name] = {"A": cls(t), "B": cls(t)}
+        _use("A")
+
+
+def _use(label):
+    cls, types = _types()
+    for name, t in types.items():
+        CUR[name] = cls(t) if label == "new" else INST[name][label]
+    CART[:] = [CUR["cart"]]
+    CURV["cyl"], CURV["sph"] = CUR["cyl"], CUR["sph"]
 
 
 def _coords(p):
@@ -463,9 +484,25 @@ def replay_native(case):
 
 
 def replay_any(case):
-    if "native" in case:
-        return replay_native(case)
-    return replay_case(case)
+    """Replay along the history of coordinate-system objects the model asks for (shell / ball / half ball: A, B, a new
+    one, A again - all in this process); the other cases use one object, rotating through A, B, new."""
+    _init()
+    history = case.get("history") or [("A", "B", "new")[case.get("idx", 0) % 3]]
+    merged = None
+    for label in history:
+        _use(label)
+        res = replay_native(case) if "native" in case else replay_case(case)
+        for r in res["records"]:
+            r["inst"] = label
+        res["verdicts"] = [(k, key, what + (f" [coordinate-system object {label}]" if k == "violation" else ""))
+                           for k, key, what in res["verdicts"]]
+        if merged is None:
+            merged = res
+        else:
+            merged["records"] += res["records"]
+            merged["verdicts"] += res["verdicts"]
+            merged["calls"] += res["calls"]
+    return merged
 
 
 # ---- thorough: trigonometric fields (outside the model; decided by the harness against sympy's own integrals) ----
@@ -639,10 +676,11 @@ def main() -> int:
             cases = res2.printed
             if not cases:
                 raise RuntimeError("TLC emitted no cases")
-            for c in cases:
+            for i, c in enumerate(cases):
                 c["thorough"] = t["curved"]
+                c["idx"] = i
             for c in [c for c in cases if "native" in c][:1] + [c for c in cases if len(c.get("terms", ())) == 1][5::97][:4]:
-                run.sample({k: v for k, v in c.items() if k != "thorough"})
+                run.sample({k: v for k, v in c.items() if k not in ("thorough", "idx")})
             results = list(pmap(pool, replay_any, cases, chunk=4))
             records += collect(run, results, f"emission{n}")
         rejected = set(validate_trace(run, sc, records, "all"))
